@@ -341,7 +341,17 @@ def si(x):
 
 
 class StrSub(str):
-    """text held as an instance of a str subclass"""
+    """text held as an instance of a str subclass whose str()/repr()/format() do NOT give the text back — what a member of
+    `class Marker(str, Enum)` is: the characters of the string are its value, str(x) is 'Marker.X'"""
+
+    def __str__(self):
+        return "StrSub." + str.__str__(self).upper()
+
+    def __repr__(self):
+        return "<StrSub %s>" % str.__repr__(self)
+
+    def __format__(self, spec):
+        return format(self.__str__(), spec)
 
 
 def sl(s):
